@@ -4,12 +4,12 @@ CONSTANTS
   MaxDepth = 3
   MaxUnits = 1
   MaxVar = 30
-  UnitKinds <- SweepUnits
+  UnitKinds <- ModOnly
   ConKinds <- Empty
   SpecKinds <- AllSpec
   SimpleV <- Set1
-  DeclV <- DeclAll
-  UseV <- UseAll
+  DeclV <- Set1
+  UseV <- Set1
   FormatV <- Set1
   CompV <- CompAll
   TbindV <- TbindAll
@@ -22,7 +22,7 @@ CONSTANTS
   InsSet <- InsSmall
   MinEdits = 0
   Randomised = FALSE
-  DumpMod = 6
+  DumpMod = 2
   NRepl = 17
   RichOnly = TRUE
   NeedStruct = FALSE
